@@ -734,6 +734,12 @@ PSPUBLIC int32 psPkcs12ParseMem(psPool_t *pool, psX509Cert_t **cert, psPubKey_t 
 /*
     PKCS#5 PBKDF v1 and v2 key generation
  */
+/* Largest password-based key derivation iteration count accepted from a
+   PKCS#8 / PKCS#12 structure. The count is chosen by whoever produced the
+   file: without a limit, loading it costs up to 2^31 hash computations. */
+#   ifndef PS_PBE_MAX_ITERATIONS
+#    define PS_PBE_MAX_ITERATIONS 10000000
+#   endif
 PSPUBLIC int32_t psPkcs5Pbkdf1(unsigned char *pass, uint32 passlen,
                                unsigned char *salt, int32 iter, unsigned char *key);
 PSPUBLIC void psPkcs5Pbkdf2(unsigned char *password, uint32 pLen,
